@@ -962,6 +962,14 @@ class IRGenerator:
                     continue
 
                 for field in data_type.fields:
+                    if is_void_type(unwrap_aliases(field.data_type)[0]):
+                        # `f Void` is refused when the field is created; an
+                        # alias of Void is Void too.
+                        raise InvalidSpec(
+                            'Struct field %s cannot have a Void type.' %
+                            quote(field.name),
+                            field._ast_node.lineno, field._ast_node.path)
+
                     if not field._ast_node.has_default:
                         continue
 
